@@ -173,7 +173,8 @@ def run_once(cfg, chooser, seed=0, executor=None, fp=False):
         except HarnessError:
             raise
         except Exception as e:
-            err = f"{type(e).__name__}: {str(e)[:200]}"
+            import re as _re
+            err = _re.sub(r"\b(array|op)-\d+", r"\1-N", f"{type(e).__name__}: {str(e)[:200]}")
         if err:
             return dict(probs=[("execution-error", err)], events=0, order=())
         executed = None
